@@ -20,6 +20,8 @@ CONFIGS = {
                      "cfgx": (None, "*!*@10.*"), "cfgpm": ("userpw", "*!~cfgpm@127.*")}),
     "srvpw+users": ("srvpw", {"cfgu": (None, None), "cfgp": ("userpw", None), "cfgx": ("userpw", "*!*@10.*"),
                               "cfgm": (None, "gate*!*@*")}),
+    # "exactly that password": a long one, told apart from others by its last characters only
+    "longpw": ("s" * 64 + "-and-a-tail-that-counts", {}),
 }
 
 
@@ -154,7 +156,9 @@ def gate_alphabet(cfgname, reduced):
     a = ["NICK gate1", "NICK taken", "USER plain 0 * :P", "CAP LS 302", "CAP END", "PRIVMSG obs :psst",
          "JOIN #o", "@rival"]
     if spw:
-        a += ["PASS srvpw", "PASS wrong"]
+        a += ["PASS " + spw, "PASS wrong"]
+        if len(spw) > 64:
+            a += ["PASS " + spw[:64] + "-but-another-tail", "PASS " + spw[:64]]
     else:
         a += ["PASS whatever"]
     if users:
@@ -368,6 +372,8 @@ def gate_sequences(cfgname, rng, quick):
     pws = [p_ for p_ in (spw, "userpw" if users else None, "wrong") if p_]
     # near misses: the right password followed by white space, sent as a trailing parameter
     pws += [":" + p_ + tail for p_ in (spw, "userpw" if users else None) if p_ for tail in (" ", "\t")]
+    if spw and len(spw) > 64:
+        pws += [spw[:64] + "-but-another-tail", spw[:64], spw + "x", spw[:-1]]
     if spw or users:
         tails = [["NICK gate1", "USER plain 0 * :P"], ["USER plain 0 * :P", "NICK gate1"]]
         if users:
